@@ -214,13 +214,15 @@ DataArg ==
   /\ InCmdMode /\ "data" \in Alphabet
   /\ Just(Cmd("DATA", "arg"), R(501, <<5, 5, 4>>))
 
-\* size: "small" | "big";  read: "all" | "none";  verdict: "acc" | "rej"
+\* size: "small" | "big";  read: "all" | "some" | "none";  verdict: "acc" | "rej"
+\* ("some": the backend stops reading after a few octets - fewer than any
+\* limit - and returns its verdict)
 Data(size, read, verdict) ==
   LET cmd == CmdB("DATA", size, 0, FALSE, read \o "-" \o verdict)
       tooBig == cfg.maxBytes > 0 /\ size = "big"
       final == IF tooBig /\ read = "all" THEN R(552, <<5, 3, 4>>)
                ELSE IF verdict = "acc" THEN R(250, <<2, 0, 0>>) ELSE R(554, <<5, 0, 0>>)
-      endk == IF read = "none" THEN "none" ELSE IF tooBig THEN "err" ELSE "eof"
+      endk == IF read \in {"none", "some"} THEN "none" ELSE IF tooBig THEN "err" ELSE "eof"
   IN
   /\ InCmdMode /\ "data" \in Alphabet
   /\ size = "big" => cfg.maxBytes > 0
@@ -231,6 +233,26 @@ Data(size, read, verdict) ==
           /\ Emit(cmd, <<R(354, <<>>)>> \o Finals(final),
                   <<CB(DataName \o ".begin", st.sess), CB(DataName \o ".end:" \o endk, st.sess),
                     CB("Reset", st.sess)>>)
+
+\* The backend reads the whole message and then panics.  The panic is
+\* recovered: 421, connection closed.  Which callbacks happen on the way out
+\* is what the code does (not judged): the deferred reset runs while the
+\* panic unwinds (Reset, then Logout), except with a per-recipient LMTP
+\* backend, whose panic is recovered in its own goroutine (every recipient
+\* gets 421, Logout, and the reset finds no session any more).
+DataPanic ==
+  LET cmd == CmdB("DATA", "small", 0, FALSE, "all-panic")
+      dn == DataName
+  IN
+  /\ InCmdMode /\ "panic" \in Alphabet
+  /\ st.bdat = "none" /\ ~st.binarymime /\ st.from /\ st.nrcpt > 0
+  /\ st' = ClosedSt(st)
+  /\ IF cfg.lmtp /\ cfg.lmtpBackend
+     THEN Emit(cmd, <<R(354, <<>>)>> \o Rep(R(421, <<4, 0, 0>>), st.nrcpt),
+               <<CB(dn \o ".begin", st.sess), CB(dn \o ".end:eof", st.sess), CB("Logout", st.sess)>>)
+     ELSE Emit(cmd, <<R(354, <<>>), R(421, <<4, 0, 0>>)>>,
+               <<CB(dn \o ".begin", st.sess), CB(dn \o ".end:eof", st.sess),
+                 CB("Reset", st.sess), CB("Logout", st.sess)>>)
 
 -----------------------------------------------------------------------------
 (* BDAT *)
@@ -275,6 +297,12 @@ Bdat(v, n, lastc, p) ==
           ELSE /\ st' = Cleared(st)
                /\ Emit(cmd, IF lastc THEN Finals(BdatFinalErr) ELSE <<BdatFinalErr>>,
                        begin \o earlyEnd \o <<CB("Reset", st.sess)>>)
+     ELSE IF lastc /\ plan = "panic" THEN
+          \* the delivery panics after the last octet: recovered, 421 (LMTP: for
+          \* every recipient), connection closed without a Reset
+          /\ st' = ClosedSt(st)
+          /\ Emit(cmd, Finals(R(421, <<4, 0, 0>>)),
+                  begin \o <<CB(dn \o ".end:eof", st.sess), CB("Logout", st.sess)>>)
      ELSE IF ~lastc THEN
           /\ st' = [st EXCEPT !.bdat = "open", !.bplan = plan,
                               !.bytes = IF cfg.maxBytes > 0 THEN @ + n ELSE 0]
@@ -289,7 +317,8 @@ BdatAny ==
        \/ \E v \in {"3args", "badlast"} : n > 0 /\ Bdat(v, n, l, "")
        \/ IF st.bdat = "none" /\ st.from /\ st.nrcpt > 0
              /\ ~(cfg.maxBytes > 0 /\ st.bytes + n > cfg.maxBytes)
-          THEN \E p \in {"acc", "rej", "early"} : Bdat("", n, l, p)
+          THEN \E p \in {"acc", "rej", "early"} \cup (IF "panic" \in Alphabet THEN {"panic"} ELSE {}) :
+                  Bdat("", n, l, p)
           ELSE Bdat("", n, l, "")
 
 -----------------------------------------------------------------------------
@@ -464,14 +493,14 @@ Next ==
   \/ \E v \in MailVariants : Mail(v)
   \/ \E v \in RcptVariants : Rcpt(v)
   \/ DataArg
-  \/ \E size \in {"small", "big"}, read \in {"all", "none"}, verdict \in {"acc", "rej"} :
+  \/ \E size \in {"small", "big"}, read \in {"all", "some", "none"}, verdict \in {"acc", "rej"} :
         Data(size, read, verdict)
   \/ BdatAny
   \/ Rset \/ Noop \/ Vrfy \/ Unimpl
   \/ \E v \in {"unknown", "empty", "short", "nospace"} : BadLine(v)
-  \/ Quit \/ PeerClose \/ LongLine \/ PanicMail \/ AfterClose
+  \/ Quit \/ PeerClose \/ LongLine \/ PanicMail \/ DataPanic \/ AfterClose
   \/ \E over \in BOOLEAN : DataCut(over)
-  \/ \E n \in ChunkSizes, l \in BOOLEAN, p \in {"", "acc", "rej", "early"}, some \in BOOLEAN : BdatCut(n, l, p, some)
+  \/ \E n \in ChunkSizes, l \in BOOLEAN, p \in {"", "acc", "rej", "early", "panic"}, some \in BOOLEAN : BdatCut(n, l, p, some)
   \/ \E ir \in {"none", "empty", "bytes"}, nchal \in 0..2, fin \in {"ok", "fail"} : AuthStart(ir, nchal, fin)
   \/ AuthNoArg
   \/ \E v \in {"badir", "unkmech"} : AuthBad(v)
@@ -537,7 +566,8 @@ IsTxnEnd(l, preSt) ==
 
 C03_TxnEnd ==
   [][ IsTxnEnd(last', st) =>
-        /\ (st.sess # 0 => HasCb(last'.cbs, "Reset"))
+        \* (a recovered backend panic ends the whole session: Logout)
+        /\ (st.sess # 0 => HasCb(last'.cbs, "Reset") \/ HasCb(last'.cbs, "Logout"))
         /\ ~st'.from /\ st'.nrcpt = 0 /\ st'.bdat = "none"
         /\ ~obs'.from /\ obs'.nrcpt = 0
     ]_vars
@@ -559,8 +589,9 @@ C10_OnlyWhenAvailable ==
 ReplyCountOK(l, preSt) ==
   LET n == Len(l.replies) IN
   CASE l.cmd.c \in {"EOF", "AFTER"} -> n = 0
+    [] l.cmd.c = "DATA" /\ l.cmd.p = "all-panic" -> n >= 2
     [] l.cmd.c = "DATA" /\ n > 1 -> n = 1 + (IF cfg.lmtp THEN preSt.nrcpt ELSE 1)
-    [] l.cmd.c = "BDAT" /\ l.cmd.l /\ l.cmd.a = "" /\ l.replies[1].code \in {250, 554} ->
+    [] l.cmd.c = "BDAT" /\ l.cmd.l /\ l.cmd.a = "" /\ l.replies[1].code \in {250, 554, 421} ->
          n = (IF cfg.lmtp THEN preSt.nrcpt ELSE 1)
     [] l.cmd.c = "BAD" /\ preSt.errCount = MaxErr -> n = 2 /\ l.replies[2].code = 500
     [] l.cmd.c = "DATACUT" -> n = 1 + (IF cfg.lmtp THEN preSt.nrcpt ELSE 1)
